@@ -99,7 +99,7 @@ func c04sScenario(p c04sParams, bound int) vh.SScenario {
 }
 
 func TestVerifC04S(t *testing.T) {
-	r := vres.Open("C04", "S")
+	r := vres.Open("C04", racePart("S"))
 	defer func() {
 		if err := r.Close(); err != nil {
 			t.Fatal(err)
